@@ -69,10 +69,16 @@ Fixpoint drop (n : nat) (s : string) : string :=
   match n, s with O, _ => s | _, EmptyString => EmptyString | S m, String _ r => drop m r end.
 Fixpoint drop_while (f : ascii -> bool) (s : string) : string :=
   match s with EmptyString => EmptyString | String c r => if f c then drop_while f r else s end.
-Fixpoint srev_acc (s acc : string) : string := match s with EmptyString => acc | String c r => srev_acc r (String c acc) end.
-Definition srev (s : string) : string := srev_acc s EmptyString.
 (* removes trailing blanks: the "up to trailing blanks" of the property *)
-Definition rstrip (s : string) : string := srev (drop_while is_blank (srev s)).
+Fixpoint rstrip (s : string) : string :=
+  match s with
+  | EmptyString => EmptyString
+  | String c r => match rstrip r with
+                  | EmptyString => if is_blank c then EmptyString else String c EmptyString
+                  | r' => String c r'
+                  end
+  end.
+Definition strip_blanks (s : string) : string := rstrip (drop_while is_blank s).
 
 (* ------------------------------------------------------------------------------------------ *)
 (* the store: aux[i][0], aux[i][1] for i < naux, in array order *)
@@ -228,7 +234,7 @@ Definition pad_to (n : nat) (s : string) : string := s ++ repeat_char blank (n -
 Definition fit_value (room : nat) (vs : string) : string :=
   if String.length vs <=? room then vs else take (room - 1) vs ++ String quote EmptyString.
 Definition ffmkky (k vs : string) : option string :=
-  let k := srev (drop_while is_blank (srev (drop_while is_blank k))) in
+  let k := strip_blanks k in
   let klen := String.length k in
   if klen <=? 8 then Some (pad_to 8 k ++ "= " ++ vs)
   else
@@ -242,7 +248,6 @@ Fixpoint before_eq (s : string) : string :=
   match s with EmptyString => EmptyString | String c r => if Ascii.eqb c eq_sign then EmptyString else String c (before_eq r) end.
 Fixpoint after_eq (s : string) : option string :=
   match s with EmptyString => None | String c r => if Ascii.eqb c eq_sign then Some r else after_eq r end.
-Definition strip_blanks (s : string) : string := rstrip (drop_while is_blank s).
 Definition card_name (card : string) : string :=
   if String.prefix hier_prefix card then
     match after_eq card with
